@@ -2,7 +2,7 @@ use std::collections::HashMap;
 use std::path;
 use std::result::Result;
 
-use tokio::io::{AsyncBufReadExt, AsyncReadExt};
+use tokio::io::AsyncReadExt;
 use tokio_stream::StreamExt;
 
 use crate::core::error::MonorailError;
@@ -137,6 +137,16 @@ pub(crate) async fn git_cmd_rev_parse(
     }
 }
 
+// Parse the NUL-terminated path list printed by git with `-z`.
+fn changes_from_nul_terminated(data: &[u8]) -> Vec<Change> {
+    data.split(|b| *b == 0)
+        .filter(|name| !name.is_empty())
+        .map(|name| Change {
+            name: String::from_utf8_lossy(name).into_owned(),
+        })
+        .collect()
+}
+
 pub(crate) async fn git_cmd_other_changes(
     git_path: &str,
     work_path: &path::Path,
@@ -144,16 +154,14 @@ pub(crate) async fn git_cmd_other_changes(
     let mut child = get_git_cmd_child(
         git_path,
         work_path,
-        &["ls-files", "--others", "--exclude-standard"],
+        &["ls-files", "--others", "--exclude-standard", "-z"],
     )
     .await?;
     let mut out = vec![];
-    if let Some(stdout) = child.stdout.take() {
-        let reader = tokio::io::BufReader::new(stdout);
-        let mut lines = reader.lines();
-        while let Some(line) = lines.next_line().await? {
-            out.push(Change { name: line });
-        }
+    if let Some(mut stdout) = child.stdout.take() {
+        let mut data = vec![];
+        stdout.read_to_end(&mut data).await?;
+        out = changes_from_nul_terminated(&data);
     }
     let mut stderr_string = String::new();
     if let Some(mut stderr) = child.stderr.take() {
@@ -181,7 +189,9 @@ pub(crate) async fn git_cmd_diff_changes(
     begin: Option<&str>,
     end: Option<&str>,
 ) -> Result<Vec<Change>, MonorailError> {
-    let mut args = vec!["diff", "--name-only", "--find-renames"];
+    // -z: names are printed verbatim, NUL-terminated (no quoting of spaces or non-ASCII);
+    // --no-renames: a moved file is a change of both its old and its new path
+    let mut args = vec!["diff", "--name-only", "--no-renames", "-z"];
     if let Some(begin) = begin {
         args.push(begin);
     }
@@ -190,12 +200,10 @@ pub(crate) async fn git_cmd_diff_changes(
     }
     let mut child = get_git_cmd_child(git_path, work_path, &args).await?;
     let mut out = vec![];
-    if let Some(stdout) = child.stdout.take() {
-        let reader = tokio::io::BufReader::new(stdout);
-        let mut lines = reader.lines();
-        while let Some(line) = lines.next_line().await? {
-            out.push(Change { name: line });
-        }
+    if let Some(mut stdout) = child.stdout.take() {
+        let mut data = vec![];
+        stdout.read_to_end(&mut data).await?;
+        out = changes_from_nul_terminated(&data);
     }
     let mut stderr_string = String::new();
     if let Some(mut stderr) = child.stderr.take() {
